@@ -1980,9 +1980,6 @@ func (interp *Interpreter) cfg(root *node, sc *scope, importPath, pkgName string
 			n.child[1].tnext = n
 			n.typ = n.child[0].typ
 			n.findex = sc.add(n.typ)
-			if n.start.action == aNop {
-				n.start.gen = branch
-			}
 			logicalConst(n)
 			if !n.rval.IsValid() {
 				// A false first operand gives the result, without the second one.
@@ -2003,9 +2000,6 @@ func (interp *Interpreter) cfg(root *node, sc *scope, importPath, pkgName string
 			n.child[1].tnext = n
 			n.typ = n.child[0].typ
 			n.findex = sc.add(n.typ)
-			if n.start.action == aNop {
-				n.start.gen = branch
-			}
 			logicalConst(n)
 			if !n.rval.IsValid() {
 				// A true first operand gives the result, without the second one.
